@@ -280,3 +280,101 @@ def _(c):
     c.ensure("final_position", bool(np.linalg.norm(res[:3] - r) <= tol))
     # a late application also turns the local axes by n*step: |dv| n step per maneuver, plus the gravity difference over the delay
     c.ensure("final_velocity", bool(np.linalg.norm(res[3:] - v) <= 0.1 + 3 * 2.3 * 1.2e-3 * st * 2))
+
+
+# ---------------------------------------------------------------------------------------------
+# maneuvers given as increments of semi-major axis, inclination, node
+# ---------------------------------------------------------------------------------------------
+
+def _orb_standin(mu, a, i, v):
+    return types.SimpleNamespace(frame=types.SimpleNamespace(center=types.SimpleNamespace(body=types.SimpleNamespace(mu=mu))),
+                                 infos=types.SimpleNamespace(kep=types.SimpleNamespace(a=a, i=i), v=v))
+
+
+@contract("C17", "dkep2dv", funcs=[f"{MAN}:dkep2dv", f"{MAN}:dkep2aol"], level="proof",
+          assumptions=["first-order theory (Gauss equations, near-circular orbit): d a = 2 a^2 v dv_T / mu; a rotation of the velocity by the small angle delta about the radius, at argument of "
+                       "latitude u, changes the inclination by delta cos u and the node by delta sin u / sin i -- the contract pins the code to these closed forms, their "
+                       "first-order validity is exercised by the bounded C17.dkep.native",
+                       ])
+def _(c):
+    """proved: dkep2dv returns, in TNW, the vector that turns the velocity by delta = sqrt(di^2 + (dOmega sin i)^2) about the radius and changes its magnitude by
+    mu da / (2 v a^2): the new velocity (v + dv_T, dv_W) is v_f (cos delta, sin delta), no N part, |dv|^2 = v^2 + v_f^2 - 2 v v_f cos(delta) -- for every request, zero
+    included; dkep2aol returns the argument of latitude u with delta cos u = di and delta sin u = dOmega sin i"""
+    if not c.symbolic:
+        return
+    mu, a, v = c.real("mu", lo=0), c.real("a", lo=0), c.real("v", lo=0)
+    i = c.real("i")
+    da, di, dO = c.real("da"), c.real("di"), c.real("dOmega")
+    c.require(sym.And(mu > 0, a > 0, v > 0))
+    w = c.world()
+    orb = _orb_standin(mu, a, i, v)
+    # the angle of the plane rotation: never negative, its square is the first-order spherical-triangle relation
+    si = sym.sin(i)
+    dv_a = mu * da / (2 * v * a * a)
+    vf = v + dv_a
+    c.require(vf > 0, "the requested change of semi-major axis does not reverse the velocity")
+    out = w.fn(f"{MAN}:dkep2dv")(orb, da=da, di=di, dOmega=dO)
+    delta = sym.sqrt(di ** 2 + dO ** 2 * sym.sin(i) ** 2)
+    cd, sd = sym.cos(delta), sym.sin(delta)
+    c.ensure("no_component_along_N", out[1] == 0)
+    c.ensure("new_velocity_makes_the_angle_delta", sym.And(v + out[0] == vf * cd, out[2] == vf * sd))
+    c.ensure("new_speed_is_v_final", (v + out[0]) * (v + out[0]) + out[2] * out[2] == vf * vf, budget_ms=60000)
+    c.ensure("triangle_closed", out[0] * out[0] + out[2] * out[2] == v * v + vf * vf - 2 * v * vf * cd, budget_ms=60000)
+    c.require(sym.Or(di != 0, dO * sym.sin(i) != 0), "a plane change is asked")
+    u = w.fn(f"{MAN}:dkep2aol")(orb, di, dO)
+    c.ensure("aol.inclination_part", delta * sym.cos(u) == di, budget_ms=60000)
+    c.ensure("aol.node_part", delta * sym.sin(u) == dO * sym.sin(i), budget_ms=60000)
+
+
+def _grid_dkep(tier, rng):
+    """inclinations {20, 51.6, 98, 120 deg} x eccentricity {0.0005, 0.01} x requests: da in {10 m, 1 km, 50 km}, di in {1e-6, 1e-4, 5e-3}, dOmega in {1e-6, 1e-4, 5e-3}, and
+    combined (di, dOmega) of either sign -- impulsive and continuous (60 s) forms"""
+    reqs = [(10.0, 0, 0), (1.0e3, 0, 0), (5.0e4, 0, 0), (-1.0e3, 0, 0), (0, 1e-6, 0), (0, 1e-4, 0), (0, 5e-3, 0), (0, -1e-4, 0), (0, 0, 1e-6), (0, 0, 1e-4), (0, 0, 5e-3), (0, 0, -1e-4),
+            (0, 1e-4, 2e-4), (0, -2e-4, 1e-4), (0, 1e-4, -1e-4), (500.0, 1e-4, 1e-4)]
+    for inc in (20.0, 51.6, 98.0, 120.0):
+        for e in (0.0005, 0.01):
+            for k, (da, di, dO) in enumerate(reqs):
+                yield {"inc": inc, "e": e, "da": da, "di": di, "dO": dO, "cont": (k + int(inc)) % 2}
+
+
+@contract("C17", "dkep.native", funcs=[f"{MAN}:KeplerianImpulsiveMan.dv", f"{MAN}:KeplerianContinuousMan.accel", f"{MAN}:dkep2dv", f"{MAN}:dkep2aol", f"{L}:to_tnw"],
+          grid=_grid_dkep, level="bounded")
+def _(c):
+    """bounded: the delta-v of a maneuver given as (da, di, dOmega), applied at the argument of latitude dkep2aol names (anywhere for a pure da), is finite and changes the
+    osculating semi-major axis, inclination and node (computed from the vector definitions by independent code) by the requested amounts to first order: relative error
+    below 2 % + the second-order terms, the other two elements moving by less than 2 % of the equivalent request"""
+    from beyond.orbits import StateVector
+    from beyond.dates import Date, timedelta
+    from beyond.orbits.man import KeplerianImpulsiveMan, KeplerianContinuousMan, dkep2aol
+    from beyond.constants import Earth
+    from contracts import twobody
+    from contracts.c19_mission import _kep2cart
+    mu = Earth.mu
+    inc, e = math.radians(c.real("inc")), c.real("e")
+    da, di, dO = c.real("da"), c.real("di"), c.real("dO")
+    a0, O0, w0 = 7.1e6, 1.0, 0.4
+    d0 = Date(2018, 5, 4)
+    probe = StateVector(list(np.concatenate(_kep2cart(a0, e, inc, O0, w0, 0.3, mu))), d0, "cartesian", "EME2000")
+    u = float(dkep2aol(probe, di, dO)) if (di or dO) else 1.3
+    r0, v0 = _kep2cart(a0, e, inc, O0, w0, (u - w0) % (2 * math.pi), mu)
+    sv = StateVector(list(r0) + list(v0), d0, "cartesian", "EME2000")
+    if c.integer("cont"):
+        man = KeplerianContinuousMan(d0, timedelta(seconds=60), da=da, di=di, dOmega=dO)
+        dv = np.asarray(man.accel(sv), dtype=float) * 60.0
+    else:
+        dv = np.asarray(KeplerianImpulsiveMan(d0, da=da, di=di, dOmega=dO).dv(sv), dtype=float)
+    c.ensure("finite", bool(np.all(np.isfinite(dv))))
+    a1, e1, i1, O1, w1, nu1 = twobody.elements(r0, v0 + dv, mu)
+    a_, e_, i_, O_, w_, nu_ = twobody.elements(r0, v0, mu)
+    got = (a1 - a_, i1 - i_, (O1 - O_ + math.pi) % (2 * math.pi) - math.pi)
+    # sizes in velocity units, to compare the three requests with each other
+    vn = float(np.linalg.norm(v0))
+    size = (abs(da) * mu / (2 * vn * a_ ** 2), abs(di) * vn, abs(dO) * math.sin(inc) * vn)
+    total = max(sum(size), 1e-12)
+    unit = (mu / (2 * vn * a_ ** 2), vn, math.sin(inc) * vn)
+    ok = True
+    for want, g, un in zip((da, di, dO), got, unit):
+        err = abs(g - want) * un
+        # first order: relative 2 % of the whole request, plus second-order terms (total^2 / v) and the eccentricity's share
+        ok = ok and err <= 0.02 * total + 3 * total ** 2 / vn + 2.5 * e * total
+    c.ensure("increments_realised_to_first_order", ok)
